@@ -681,7 +681,7 @@ func TestC13(t *testing.T) {
 	r.Assume("bounded liveness: workers must be gone within 10 s (>= 500x MaxIdleWorkerDuration) once nothing is served; harness quiescence (every accepted conn finished) is polled with a 20 s cap whose firing is inconclusive unless Counts().workers==0 proves the connection can no longer be served")
 	r.Assume("goroutine identity (parsed from runtime.Stack) links the wp.release.enter hook to the connection that goroutine served last")
 
-	n := r.N(3000, 100000)
+	n := r.N(2000, 100000)
 	const batchSize = 32
 	nb := (n + batchSize - 1) / batchSize
 	hits := map[string]int{}
